@@ -670,8 +670,9 @@ class OrthorectificationHelper(object):
             raise ValueError('Got unexpected and invalid pixel_bounds array {}'.format(pixel_bounds))
 
         pixel_limits = self.reader.get_data_size_as_tuple()[self.index]
-        if (pixel_bounds[0] >= pixel_limits[0]) or (pixel_bounds[1] < 0) or \
-                (pixel_bounds[2] >= pixel_limits[1]) or (pixel_bounds[3] < 0):
+        # NB: the upper bounds are exclusive
+        if (pixel_bounds[0] >= pixel_limits[0]) or (pixel_bounds[1] <= 0) or \
+                (pixel_bounds[2] >= pixel_limits[1]) or (pixel_bounds[3] <= 0):
             # this entirely misses the whole region
             return numpy.array([0, 0, 0, 0], dtype=numpy.int32)
 
